@@ -18,7 +18,7 @@ from vlib.verdict import Case
 
 PROPERTY = 'C20'
 MANIFEST = {
- 'level_text': 'Lean 4 theorems about a model of Irc.addCallback/getCallback/removeCallback, IrcCallback/Owner/Misc.callPrecedence and the control flow of Owner.load/unload/reload: for every iteration order of the Python sets the computed order is a permutation of the callbacks in which every resolved before/after edge holds (order_sound), Owner is first and Misc last (owner_first, misc_last), constraint sets admitting no order are rejected and leave the list unchanged (cycle_rejected) while every constraint set that admits an order is accepted (acyclic_accepted), the loop never needs more rounds than callbacks (fuel_enough); along every history of load/unload/reload with arbitrary failures the list keeps unique names, satisfied edges and Owner first (history_inv), failed loads and attempts on Owner change nothing (load_failure_preserves, owner_stays), a reload whose module raises ImportError puts the old instance back (reload_import_failure_keeps), the answered commands are exactly those of the registered plugins (commands_union). The model is tied to /repo by a differential run of seeded random histories against a live bot with synthetic plugins (arbitrary callBefore/callAfter incl. unknown names, cycles, case variants, raising __init__/die/import), which also evaluates the property statement on the implementation after every step.',
+ 'level_text': 'Lean 4 theorems about a model of Irc.addCallback/getCallback/removeCallback, IrcCallback/Owner/Misc.callPrecedence and the control flow of Owner.load/unload/reload: for every iteration order of the Python sets the computed order is a permutation of the callbacks in which every resolved before/after edge holds (order_sound), Owner is first and Misc last (owner_first, misc_last), constraint sets admitting no order are rejected and leave the list unchanged (cycle_rejected) while every constraint set that admits an order is accepted (acyclic_accepted), the loop never needs more rounds than callbacks (fuel_enough); along every history of load/unload/reload with arbitrary failures the list keeps unique names, satisfied edges and Owner first (history_inv), failed loads and attempts on Owner change nothing (load_failure_preserves, owner_stays), a reload whose module raises ImportError puts the old instance back (reload_import_failure_keeps), the answered commands are exactly those of the registered plugins (commands_union); all Irc objects (networks) refer to one list object that the commands only mutate in place, so every network sees the same list after any history (shared_view, shared_history). The model is tied to /repo by a differential run of seeded random histories against a live bot with synthetic plugins (arbitrary callBefore/callAfter incl. unknown names, cycles, case variants, raising __init__/die/import), which also evaluates the property statement on the implementation after every step.',
  'level_note': 'Trusted: Lean kernel; axioms propext/Classical.choice/Quot.sound only; the correspondence harness and its synthetic plugins; names are ASCII (str.lower modelled on ASCII). Modelled and proved: the topological sort of addCallback with its set-order freedom, case-insensitive lookup/removal, the callPrecedence variants including the firewall that turns the self-reference assertion into "no constraints", the success/failure paths of load/unload/reload. Exercised only: importing modules from disk, conf.registerPlugin flags, command dispatch of the probe commands (C14 covers dispatch). Known findings kept in the model: reload loses the plugin when the new module raises a non-ImportError or the new constructor raises (reload_failure_partial, reload_ctor_counter); a plugin naming itself in callBefore/callAfter silently loses all its constraints.',
  'technique': 'Lean 4 proof (loop invariants over the extraction rounds, history induction) + differential correspondence on a live bot',
  'design_ref': 'DESIGN.md §6 C20',
@@ -26,15 +26,16 @@ MANIFEST = {
 THEOREMS = ['C20.order_sound', 'C20.owner_first', 'C20.misc_last', 'C20.cycle_rejected', 'C20.acyclic_accepted',
             'C20.fuel_enough', 'C20.duplicate_rejected', 'C20.history_inv', 'C20.load_failure_preserves',
             'C20.owner_stays', 'C20.reload_import_failure_keeps', 'C20.reload_failure_partial',
-            'C20.reload_ctor_counter', 'C20.self_reference_counter', 'C20.commands_union']
+            'C20.reload_ctor_counter', 'C20.self_reference_counter', 'C20.commands_union',
+            'C20.shared_view', 'C20.shared_history']
 TRUSTED = ['Lean 4.33.0 kernel; axioms ⊆ {propext, Classical.choice, Quot.sound}',
            'harness/c20.py generators, reply canonicalisation, synthetic plugins harness/plugins/VtOrd0..5',
            'plugin names are ASCII (str.lower modelled on the ASCII range)',
            'parameter: iteration order of Python sets (instantiated per step with the order the implementation produced; theorems hold for every order)']
 RULE = ('one case = one trial: a random constraint assignment (acyclic / cyclic / self-referencing / unknown names / case variants) for six '
         'synthetic plugins and a random history of load/unload/reload commands (case variants, .py suffix, Owner/Misc/User as targets, '
-        'injected import/constructor/die failures) sent to the live bot; compared per step: reply class, irc.callbacks names, answered '
-        'probe commands.  Non-trivial = at least one tag (all trials have some); distinct = distinct trial description.')
+        'injected import/constructor/die failures) sent to the live bot on either of two networks, the plugin module changing version (command set) between (re)loads; compared per step: '
+        'reply class, irc.callbacks names on both networks, probe commands answered through the real dispatcher.  Non-trivial = at least one tag (all trials have some); distinct = distinct trial description.')
 
 PLUGDIR = os.path.join(os.path.dirname(os.path.abspath(__file__)), 'plugins')
 VT = ['VtOrd%d' % i for i in range(6)]
@@ -54,18 +55,35 @@ def get_bot():
         bot.register_welcome(b)
         u = b.ircdb.users.newUser(); u.name = 'boss'; u.addCapability('owner'); u.addHostmask('boss!b@h')
         b.ircdb.users.setUser(u)
+        # a second network: its Irc object shares the callback list with the first (Irc.__init__ default argument)
+        b.conf.registerNetwork('test2')
+        b.conf.supybot.networks.test2.ssl.setValue(False)
+        b.irc2 = b.irclib.Irc('test2')
+        b.irc2.feedMsg(b.ircmsgs.IrcMsg(':server 001 %s :Welcome' % b.nick))
+        while b.irc2.takeMsg() is not None:
+            pass
+        b.ircs = [b.irc, b.irc2]
         b.c20_ready = True
     return b, _cfg
 
 def reset_cfg(c):
     c.before = {}; c.after = {}; c.init_raises = set(); c.die_raises = set(); c.import_fails = set()
-    c.import_other = set(); c.log = []; c.seen = []
+    c.import_other = set(); c.log = []; c.seen = []; c.version = {}; c.serial = 0
 
-def say(b, text):
-    return [m.args[1] if len(m.args) > 1 else str(m) for m in bot.feed(b, 'boss!b@h', 'test', text)]
+def say(b, text, which=0):
+    """send a command of the owner on the given network, return the texts of the replies"""
+    irc = b.ircs[which]
+    irc.feedMsg(b.ircmsgs.privmsg('test', text, prefix='boss!b@h'))
+    out = []
+    for _ in range(1000):
+        m = irc.takeMsg()
+        if m is None:
+            break
+        out.append(m.args[1] if len(m.args) > 1 else str(m))
+    return out
 
-def names(b):
-    return [cb.name() for cb in b.irc.callbacks]
+def names(b, which=0):
+    return [cb.name() for cb in b.ircs[which].callbacks]
 
 def canon_reply(rs):
     if len(rs) != 1:
@@ -89,10 +107,15 @@ def hard_reset(b, c):
                     cb.die()
                 except Exception:
                     pass
+    for irc in b.ircs:
+        if irc.callbacks is not b.irc.callbacks:
+            irc.callbacks = b.irc.callbacks      # a previous trial may have left the networks with different lists
     for n in BASE:
         if b.irc.getCallback(n) is None:
             bot.load_plugin(b, n)
-    bot.drain(b)
+    for irc in b.ircs:
+        while irc.takeMsg() is not None:
+            pass
 
 # ---------------- trial generation ----------------
 OTHER_NAMES = ['User', 'Misc', 'Owner', 'Ghost', 'Nothere', 'user', 'MISC']
@@ -160,7 +183,10 @@ def gen_ops(r, n):
         if x < 0.5: kind = 'load'
         elif x < 0.72: kind = 'unload'
         else: kind = 'reload'
-        ops.append({'op': kind, 'name': case_variant(r, tgt) if tgt in VT or r.random() < 0.5 else tgt, 'fault': fault})
+        ops.append({'op': kind, 'name': case_variant(r, tgt) if tgt in VT or r.random() < 0.5 else tgt, 'fault': fault,
+                    'irc': 1 if r.random() < 0.3 else 0,          # the network the command arrives on
+                    'bump': r.random() < 0.6})                     # the plugin's module "on disk" changes first
+
     return ops
 
 def real_name(n):
@@ -171,11 +197,16 @@ def real_name(n):
     return None
 
 # ---------------- running a trial on the implementation ----------------
-def describe_plugin(c, n):
+def commands_of(n, version):
+    if n not in VT:
+        return []
+    return ['ord' + n[-1]] + (['alt' + n[-1]] if version % 2 == 1 else [])
+
+def describe_plugin(c, n, version=None):
     """model description of plugin n (its declared constraints, kind, probe command)"""
     kind = 'owner' if n == 'Owner' else 'misc' if n == 'Misc' else 'plain'
     enc = lambda xs: '-' if not xs else '+'.join(wire.enc(x) for x in xs)
-    cmds = ['ord' + n[-1]] if n in VT else []
+    cmds = commands_of(n, c.version.get(n, 0) if version is None else version)
     return '%s/%s/%s/%s/%s' % (wire.enc(n), kind, enc(c.before.get(n, [])), enc(c.after.get(n, [])), enc(cmds))
 
 def resolved_constraints(b, c):
@@ -230,39 +261,58 @@ def run_trial(b, c, trial):
                 # Owner.reload then dies on `sys.modules[callbacks[0].__module__]` (KeyError) after having removed the
                 # callback: for the model this is "the import phase raises something that is not an ImportError"
                 stale = True; fault = 'other'; tags.add('stale-module')
-        reply = canon_reply(say(b, '%s %s' % (kind, nm)))
+        which = op.get('irc', 0)
+        if op.get('bump') and rn in VT and kind in ('load', 'reload'):
+            # the module "on disk" changes between two (re)loads: other command set, told apart by alt<i>
+            c.version[rn] = c.version.get(rn, 0) + 1
+            tags.add('version-bump')
+        reply = canon_reply(say(b, '%s %s' % (kind, nm), which))
         c.import_fails = set(); c.import_other = set(); c.init_raises = set(); c.die_raises = set()
-        after_names = names(b)
-        # probes
+        after_names = names(b, 0)
+        other_names = names(b, 1)
+        if other_names != after_names:
+            problems.append('step %d (%s %s on network %d): the two networks see different callback lists: %r vs %r' % (
+                si, kind, nm, which, after_names, other_names))
+        # probes: every command is sent through the real dispatcher, on both networks
         answered = []
         last = (si == len(trial['ops']) - 1)
         probe = VT if (last or trial.get('probe_all')) else [v for v in VT if v == rn or v == VT[(si * 5 + len(nm)) % 6]]
+        probed_cmds = set()
         for v in probe:
-            rs = say(b, 'ord' + v[-1])
-            ok = (rs == ['%s here' % v])
-            if ok:
-                answered.append('ord' + v[-1])
-            loaded = v in after_names
-            if ok != loaded:
-                problems.append('step %d (%s %s): plugin %s is %sregistered but its command %s' % (
-                    si, kind, nm, v, '' if loaded else 'not ', 'does not answer (%r)' % rs if loaded else 'answers'))
-        c.seen[:] = []
-        say(b, 'vtorder probe')
-        seen = list(c.seen)
-        want_seen = [n for n in after_names if n in VT]
-        if seen != want_seen:
-            problems.append('step %d: plugins saw the message in order %r, irc.callbacks says %r' % (si, seen, want_seen))
-        impl.append('%s\t%s\t%s' % (reply, wire.enc_list(after_names), wire.enc_list(sorted(answered))))
-        probed.append(set('ord' + v[-1] for v in probe))
+            inst = b.irc.getCallback(v)
+            for cmd, word in (('ord' + v[-1], 'here'), ('alt' + v[-1], 'alt')):
+                probed_cmds.add(cmd)
+                should = inst is not None and cmd in commands_of(v, getattr(inst, 'vt_version', 0))
+                want = ['%s %s g%d' % (v, word, inst.vt_serial)] if should else None
+                for net in (0, 1):
+                    rs = say(b, cmd, net)
+                    ok = len(rs) == 1 and rs[0].startswith('%s %s g' % (v, word))
+                    if net == 0 and ok:
+                        answered.append(cmd)
+                    if should and rs != want:
+                        problems.append('step %d (%s %s): %s is registered (instance %d, version %d) but %s on network %d gives %r' % (
+                            si, kind, nm, v, inst.vt_serial, inst.vt_version, cmd, net, rs))
+                    elif not should and ok:
+                        problems.append('step %d (%s %s): no registered plugin has the command %s, yet network %d answers %r' % (
+                            si, kind, nm, cmd, net, rs))
+        for net in (0, 1):
+            c.seen[:] = []
+            say(b, 'vtorder probe', net)
+            seen = list(c.seen)
+            want_seen = [n for n in after_names if n in VT]
+            if seen != want_seen:
+                problems.append('step %d: on network %d the plugins saw the message in order %r, irc.callbacks says %r' % (si, net, seen, want_seen))
+        impl.append('%s\t%s\t%s\t%s' % (reply, wire.enc_list(after_names), wire.enc_list(other_names), wire.enc_list(sorted(answered))))
+        probed.append(probed_cmds)
         # model line
         fbits = ''.join('1' if fault == x else '0' for x in ('import', 'other', 'ctor', 'die'))
         avail = '~'
         if rn is not None and (rn in VT or rn in BASE):
             avail = describe_plugin(c, rn)
         if kind == 'unload':
-            lines.append('unload\t%s\t%s' % (wire.enc(nm), fbits))
+            lines.append('unload\t%d\t%s\t%s' % (which, wire.enc(nm), fbits))
         else:
-            lines.append('%s\t%s\t%s\t%s\t%s' % (kind, wire.enc(nm), avail, fbits, wire.enc_list(after_names)))
+            lines.append('%s\t%d\t%s\t%s\t%s\t%s' % (kind, which, wire.enc(nm), avail, fbits, wire.enc_list(after_names)))
         tags.update(['op:' + kind, 'reply:' + reply.split(':')[0]] + (['fault:' + fault] if fault else []))
         # ---- property oracle on the implementation ----
         low = [n.lower() for n in after_names]
@@ -413,9 +463,9 @@ def fill_model(cases, all_lines, spans):
         got = []
         for o, pr in zip(outs[a:a + n], probed):
             f = o.split('\t')
-            if len(f) == 3 and pr is not None:
+            if len(f) == 4 and pr is not None:
                 # the model lists the commands of all registered plugins; keep the probed ones, sorted
-                f[2] = wire.enc_list(sorted(x for x in wire.dec_list(f[2]) if x in pr))
+                f[3] = wire.enc_list(sorted(x for x in wire.dec_list(f[3]) if x in pr))
             got.append('\t'.join(f))
         c.model = '\n'.join(got)
     return cases
@@ -426,15 +476,17 @@ def finding_status(ctx):
     b, c = get_bot()
     st = {}
     _, _, problems, findings, _, _ = run_trial(b, c, WITNESS_RELOAD)
+    problems = [p for p in problems if '[known class' in p]
     st[F_RELOAD] = (F_RELOAD in findings, "reload of a loaded plugin whose new constructor raises: the old instance is already dead and unregistered, the plugin is gone (%s)" % (problems[0] if problems else 'no longer reproduces'))
     _, _, problems, findings, _, _ = run_trial(b, c, WITNESS_SELF)
+    problems = [p for p in problems if '[the plugin names itself' in p]
     st[F_SELF] = (F_SELF in findings, "a plugin naming itself in callBefore/callAfter loads without error and silently loses all its constraints (%s)" % (problems[0] if problems else 'no longer reproduces'))
     hard_reset(b, c)
     return st
 
 def run(ctx):
     build = leanbuild.ensure(PROPERTY, THEOREMS, thorough=ctx.thorough, extractors=[])
-    n = 30000 if ctx.thorough else 2500
+    n = 24000 if ctx.thorough else 1800
     cases, lines, spans = explore(ctx, n, corpus=[WITNESS_RELOAD, WITNESS_SELF] + load_corpus())
     if build.driver_ok:
         fill_model(cases, lines, spans)
@@ -466,6 +518,6 @@ def replay(ctx, path):
     print('implementation now:')
     for l in impl[1:]:
         f = l.split('\t')
-        print('  ', f[0], wire.dec_list(f[1]), wire.dec_list(f[2]))
+        print('  ', f[0], wire.dec_list(f[1]), wire.dec_list(f[2]), wire.dec_list(f[3]))
     print('oracle:', problems or 'ok')
     return 1 if problems else 0
